@@ -152,13 +152,24 @@ def cap_stable(progs):
                 continue   # move assignment may release (C07 allows it)
             reach = prog.reachable(f['id'], stop=is_grow)
             bad = None
+            # the allocator of *this container* (an element type may manage memory of its own)
+            rec = prog.record(f.get('cls', ''))
+            alloc_t = (rec.get('targs') or [None, None])[1] if rec and len(rec.get('targs') or []) > 1 else None
+            elem_t = (rec.get('targs') or [None])[0] if rec else None
+
+            def own_base(fx):
+                # shrink / resetToSmall / freeStorage of this container's own base (an element may itself be an amc vector)
+                br = prog.record(fx.get('cls', ''))
+                return br is None or elem_t is None or (br.get('targs') or [None])[0] == elem_t
             for fid in reach:
                 fx = prog.fns.get(fid)
                 if fx is None or fid == f['id']:
                     continue
-                if CG.is_alloc_request(fx) or CG.is_release(fx) or fx['name'] in (
+                own_alloc = fx.get('kind') == 'method' and short(fx['name']) in ('allocate', 'deallocate', 'reallocate') and \
+                    (alloc_t is None or fx.get('cls') == alloc_t)
+                if own_alloc or (fx['name'] in (
                         'amc::vec::SmallVectorBase::shrink', 'amc::vec::StdVectorBase::shrink', 'amc::vec::SmallVectorBase::resetToSmall',
-                        'amc::vec::SmallVectorBase::freeStorage', 'amc::vec::StdVectorBase::freeStorage'):
+                        'amc::vec::SmallVectorBase::freeStorage', 'amc::vec::StdVectorBase::freeStorage') and own_base(fx)):
                     bad = fx
                     break
             rr.instance('%s|%s' % (f['key'], rel(f['loc'])), {'function': f['pname'][:150], 'unit': prog.uname,
@@ -266,6 +277,7 @@ def widen(progs):
             body = f.get('body')
             if body is None or not f['name'].startswith(VEC_NS):
                 continue
+            linit = A.local_inits(body)
             for c in A.calls(body):
                 nm = A.cshort(c)
                 if not (nm in ('Check', 'adjustCapacity', 'grow') and c.get('args')):
@@ -273,11 +285,34 @@ def widen(progs):
                 if nm == 'Check' and not A.callee(c).endswith('GrowingPolicy::Check'):
                     continue
                 arg = c['args'][0]
-                ariths = [n for n in walk(arg) if n.get('k') == 'bin' and n.get('op') in ('+', '*', '<<')]
+                # the request may have been computed into a local first: follow initialisers
+                exprs = [arg]
+                seen_l = set()
+                frontier = [arg]
+                while frontier:
+                    e = frontier.pop()
+                    for x in walk(e):
+                        if x.get('k') == 'ref' and x.get('dk') == 'local' and x.get('did') not in seen_l and linit.get(x.get('did')) and linit[x['did']][0] is not None:
+                            seen_l.add(x['did'])
+                            exprs.append(linit[x['did']][0])
+                            frontier.append(linit[x['did']][0])
                 site = rel(prog.site(f, c))
+                ariths = []
+                narrow = []
+                for e in exprs:
+                    for n in walk(e):
+                        if n.get('k') == 'bin' and n.get('op') in ('+', '*', '<<'):
+                            ariths.append(n)
+                        if n.get('k') == 'cast' and A.width(n.get('t', '')) and A.width(n.get('from', '')) and A.width(n['t']) < A.width(n['from']) and A.width(n['t']) < 64:
+                            if any(y.get('k') == 'bin' and y.get('op') in ('+', '*', '<<') for y in walk(n.get('sub') or {})):
+                                narrow.append(n)
                 if not ariths:
                     rr.instance('%s|%s|pass' % (f['key'], site), {'function': f['pname'][:120], 'site': site, 'request': 'passed through'})
                     continue
+                for n in narrow:
+                    rr.add(Finding('WIDEN', '%s|%s|narrowed' % (f['key'], nm), prog.site(f, n),
+                                   'the requested size is computed and then narrowed to %s before the capacity check: beyond the size_type limit it wraps '
+                                   'around and the check passes' % n.get('t'), where=f['pname'], unit=prog.uname))
                 for n in ariths:
                     w_op = A.width(n.get('t', ''))
                     leaves = [x for x in walk(n) if x.get('k') in ('ref', 'call', 'mem') and A.width(x.get('t', '')) and x.get('cv') is None
